@@ -1,16 +1,16 @@
 (* Props/C19.v — property C19 (every linter honours its documented examples wherever they are embedded).
    PARTIAL: what is proved here is (1) the algebra of embeddings and the locality theory of walker-shaped
-   detectors, for ANY such detector; (2) its instances for the models of five real detectors: print-statement (local as
-   it stands), string-concat-in-loop, stateless-class, method-property, conditional-verbose (each local / once per
+   detectors, for ANY such detector; (2) its instances for the models of six real detectors: print-statement (local as
+   it stands), string-concat-in-loop, stateless-class, method-property, conditional-verbose, regex-in-loop (each local / once per
    occurrence / renaming-invariant for the quirk vectors and contexts stated below; refuted for the current tree where a
    flag is on, in Props/C19Known.v).
    Nothing is proved here about the other pattern linters: for them the law below is tested on the implementation
    (harness/props/c19.py).  Only statements closed by `exact <lemma>` and their Print Assumptions. *)
 From Coq Require Import Permutation.
 From TL Require Import Lib.Base Lib.GenTypes Gen.EmbedGen Gen.Embed2Gen Model.Embed Model.PrintStmt Model.PerfConcat Model.StatelessCls
-     Model.MethodProp Model.CondVerbose Model.EmbedRun
+     Model.MethodProp Model.CondVerbose Model.RegexLoop Model.EmbedRun
      Proofs.EmbedLocality Proofs.PrintStmtLocal Proofs.PerfConcatLocal Proofs.PerfConcatRename Proofs.StatelessClsLocal
-     Proofs.MethodPropLocal Proofs.MethodPropRename Proofs.CondVerboseLocal.
+     Proofs.MethodPropLocal Proofs.MethodPropRename Proofs.CondVerboseLocal Proofs.RegexLoopLocal Proofs.RegexLoopRename.
 
 (* ---------------------------------------------------------------- 1. any walker-shaped detector *)
 (* step pushes a summary of the ancestors down, emit reports at a node from the summary and the node's subtree.
@@ -301,6 +301,36 @@ Theorem C19_condverbose_quirk_partial : forall q file,
   forallb (no_nested_verbose (false, false)) file = true -> cv_reports q file = cv_reports v_ideal file.
 Proof. exact cv_quirk_partial. Qed.
 Print Assumptions C19_condverbose_quirk_partial.
+
+(* ---------------------------------------------------------------- 7. regex calls in loops (src/linters/performance/regex_analyzer.py) *)
+(* name facts from the enclosing scopes only (flag off): every context whose wrappers are neither loops nor import / assignment
+   statements and whose parts contain no loop and bind no regex name at the level of their scope - whatever they bind inside
+   their own functions and classes; such a context reports nothing itself *)
+Theorem C19_regex_local : forall q, q_rx_file_wide_names q = false -> forall c frag,
+  rx_ctx_ok c = true ->
+  rx_reports q (plug c frag) = shiftRs (off_l c) (off_c c) (rx_reports q frag) ++ rx_reports q (fillers c).
+Proof. exact rx_embedding_local. Qed.
+Print Assumptions C19_regex_local.
+
+(* every quirk vector: n copies, once per occurrence *)
+Theorem C19_regex_copies : forall q n h frag,
+  rx_reports q (copies n h frag) = flat_map (fun k => shiftRs (k * h) 0 (rx_reports q frag)) (seq 0 n).
+Proof. exact rx_copies. Qed.
+Print Assumptions C19_regex_copies.
+
+(* renaming, every quirk vector: a one-to-one renaming that keeps `re`, `compile` and the re function names apart *)
+Theorem C19_regex_rename : forall sg, rx_sigma_ok sg -> forall q file,
+  rx_reports q (renameF sg file) = map (renameR sg) (rx_reports q file).
+Proof. exact rx_rename. Qed.
+Print Assumptions C19_regex_rename.
+
+(* confinement of q_rx_file_wide_names: with the facts of the whole file in force the law still holds for every context that
+   binds no regex name anywhere (also not inside its own functions), contains no loop and wraps in no loop *)
+Theorem C19_regex_file_wide_partial : forall q, q_rx_file_wide_names q = true -> forall c frag,
+  rx_ctx_binds_nothing c = true ->
+  rx_reports q (plug c frag) = shiftRs (off_l c) (off_c c) (rx_reports q frag).
+Proof. exact rx_file_wide_partial. Qed.
+Print Assumptions C19_regex_file_wide_partial.
 
 (* ---------------------------------------------------------------- non-vacuity *)
 (* the documented violating example of docs/performance-linter.md, inside a method of a class, after a closed
